@@ -22,6 +22,7 @@ Section Envelope.
   Variable cenc : U -> mres bytes.
   Variable cdec : bytes -> mres U.
   Variable qerr : Z -> option bytes.
+  Variable newref : bytes -> bytes -> mres (bytes * bytes).
 
   Record envelope : Type := {
     e_system : bool; e_sender : eref; e_receiver : eref; e_msg : msg U
@@ -57,7 +58,7 @@ Section Envelope.
       let mk m := {| o_system := sys; o_saddr := sa; o_spath := sp; o_raddr := ra; o_rpath := rp; o_msg := m |} in
       match kind_of_name name with
       | Some k =>
-          match deserialize_remoting U has_codec cdec qerr k data with
+          match deserialize_remoting U has_codec cdec qerr newref k data with
           | (a, MOk (m, _)) => (a, MOk (mk m, rest))
           | (a, MErr er) => (a, MErr er)
           end
@@ -85,7 +86,7 @@ Section Envelope.
     end.
   Definition valid_envelope (e : envelope) : Prop :=
     valid_ref (e_sender e) /\ valid_ref (e_receiver e) /\
-    ty_msg U (e_msg e) /\ valid_msg U has_codec cenc cdec qerr (e_msg e).
+    ty_msg U (e_msg e) /\ valid_msg U has_codec cenc cdec qerr newref (e_msg e).
 End Envelope.
 
 (** * handshake: Send writes lp4(AdvertiseAddr).  Wait reads exactly four bytes from the stream
